@@ -292,7 +292,9 @@ func (db *RockDB) kvDel(key []byte, wb engine.WriteBatch) (int64, error) {
 			vok, _ := db.ExistNoLock(key)
 			if vok {
 				db.IncrTableKeyCount(table, -1, wb)
-			} else {
+			} else if _, cached := db.hllCache.Get(rawKey); !cached {
+				// a hyperloglog which is in the write cache only is a stored key as well (not yet counted for
+				// the table), the answer should not depend on whether the cache was flushed
 				delCnt = int64(0)
 			}
 		} else {
